@@ -60,6 +60,7 @@ FRAGMENTS = {
     'bta15-22': ('1bta.pdb', [('A', 15, 18, 'A'), ('A', 19, 22, 'B')]),
     'bta3-22': ('1bta.pdb', [('A', 3, 22)]),                                     # helix and loop, for the DSSP route (C17)        # two chains that touch (consecutive in the protein)
 }
+PAIR_INPUTS = ('tri-ala', 'ala5', 'bta15-18', 'bta-two-chains')      # thorough: inputs that also get pairs of deviations
 OPTIONS = {
     'default': [],
     'elastic': ['-elastic'],
@@ -427,17 +428,18 @@ def run(ctx):
         seeds = [0, 1, 2, 3 + ctx.seed % 50]
     else:
         inputs = list(FRAGMENTS)
-        optsets = {name: [o for o in OPTIONS if not o.startswith('merge') and not o.startswith('bonds')] for name in inputs}
+        full = [o for o in OPTIONS if not o.startswith('merge') and not o.startswith('bonds')]
+        # every option set on six inputs; the other 1bta windows (same code paths, other residue types) with two
+        optsets = {name: list(full) if name in ('tri-ala', 'ala5', 'bta15-18', 'bta38-41', 'villin52-55', 'bpti-ss') else ['default', 'elastic']
+                   for name in inputs}
         optsets['tri-ala'] += ['bonds-name']
         optsets['bta38-41'] += ['bonds-fudge1', 'bonds-name']
-        optsets['ala1-zwitterion'] = ['default', 'elastic']
-        optsets['bta-two-chains'] = ['default', 'elastic', 'merge', 'merge-all-elastic', 'nt']
-        optsets['ala5-altloc'] = ['default', 'elastic']
+        optsets['bta-two-chains'] = ['default', 'merge', 'merge-all-elastic', 'nt']
         for skip in ('bta3-12', 'bta-two-chains-6', 'bta15-22', 'bta3-22'):      # inputs of other properties' CLI layers
             optsets.pop(skip, None)
             inputs.remove(skip)
         seeds = list(range(16)) + [100 + ctx.seed % 1000]
-    ctx.bound = {'inputs': inputs, 'deviations': 1 if ctx.quick else '1, plus pairs (motion x transposition), (all-H renamed x transposition)',
+    ctx.bound = {'inputs': inputs, 'deviations': 1 if ctx.quick else '1, plus pairs (motion x transposition), (all-H renamed x transposition) on %s' % (PAIR_INPUTS,),
                  'hash_seeds': seeds}
     acc = Acc()
     for part in common.pmap(bind_driver, inputs):
@@ -447,13 +449,20 @@ def run(ctx):
     for name in inputs:
         atoms = load_atoms(name)
         devs = deviations_of(atoms, ctx.tier)[1:]
-        if not ctx.quick:
+        if not ctx.quick and name in PAIR_INPUTS:
             swaps = [d for d in devs if d[0] == 'swap']
             motions = [d for d in devs if d[0] == 'motion'][::5]
             devs = devs + [('pair', m, s) for m in motions for s in swaps[::3]] + \
                 [('pair', ('rename-all-h',), s) for s in swaps[::2] if any(a['element'] == 'H' for a in atoms)]
         for opts in optsets[name]:
-            for chunk in common.chunked(devs, max(8, len(devs) // 6)):
+            mine = devs
+            if opts == 'bonds-name':
+                # with -bonds-from name the atom names ARE the connectivity the user asks for: a hydrogen given a name the block
+                # does not know is an atom bonded to nothing, i.e. another molecule, not another presentation of the same one
+                # (one renamed hydrogen on TRP38 of bta38-41 makes the largest common subgraph drop CB instead: SC1 moves 0.7 A,
+                # rightly).  Orders, rigid motions and hash seeds remain.
+                mine = [d for d in devs if 'rename' not in repr(d)]
+            for chunk in common.chunked(mine, max(8, len(mine) // 6)):
                 tasks.append((name, opts, chunk))
     acc = Acc()
     for part in common.pmap(work, tasks):
